@@ -40,7 +40,7 @@ pub fn apply2(t: &str, x: &str, y: &str) -> String {
 
 /// postfix chains: a base followed by up to `n` postfix operators -- reaches
 /// "filter . field filter" and similar shapes beyond the sentence length bound
-pub const POSTFIX: &[&str] = &[".a", ".b", "[0]", "[1:]", "[*]", "[]", ".*", "[?a]", "[?b > `0`]", ".[a, b]", " | a", " || b", " == a", ".type(@)", ".not_null(@, 'n')"];
+pub const POSTFIX: &[&str] = &[".a", ".b", "[0]", "[1:]", "[*]", "[]", ".*", "[?a]", "[?b > `0`]", ".[a, b]", ".{x: a, y: b}", " | a", " || b", " == a", ".type(@)", ".not_null(@, 'n')"];
 pub const BASES: &[&str] = &["a", "@", "[0]", "*", "!a", "(a)", "[a, b]"];
 
 pub fn chains(n: usize) -> Vec<String> {
